@@ -115,6 +115,7 @@ def hash_tables(request, full_coinbases=None):
     import rlp
     from Crypto.Hash import keccak as _k
     keccak, cbhash = {}, {}
+    hash_tables.too_deep = []
     if not isinstance(request, dict):
         return keccak, cbhash
     items = []
@@ -126,10 +127,19 @@ def hash_tables(request, full_coinbases=None):
         for l in br:
             if isinstance(l, list):
                 items += [x for x in l if isinstance(x, str)]
+    too_deep = []
     for h in items:
         try:
             raw = bytes.fromhex(h)
+        except Exception:
+            continue
+        try:
             item = rlp.decode(raw)
+            rlp.encode(item)
+        except RecursionError:
+            # pyrlp's recursion hit the interpreter's limit: an outcome class handed to the model
+            too_deep.append(raw.hex())
+            continue
         except Exception:
             continue
         n = len(item)
@@ -147,6 +157,7 @@ def hash_tables(request, full_coinbases=None):
                     cbhash[cb.hex()] = coinbase_tx_get_hash(cb.hex())
                 except Exception:
                     pass
+    hash_tables.too_deep = too_deep
     return keccak, cbhash
 
 
@@ -239,7 +250,7 @@ def run_line(inp):
                 "script": [simdev.norm_entry(e) for e in simdev.CTX.recorded] if device is not None
                 else [simdev.norm_entry(e) for e in parse_script(inp.get("script", []))],
                 "conns": list(inp.get("conns", [])), "comm_issue": bool(inp.get("comm_issue", False)),
-                "keccak": keccak, "cbhash": cbhash}
+                "keccak": keccak, "cbhash": cbhash, "rlp_too_deep": list(hash_tables.too_deep)}
         if kind == "ok":
             minp["request"] = request
         if inp.get("pin") is not None:
